@@ -615,10 +615,17 @@ pub proof fn lemma_replaced_starts(co: Seq<u8>, cf: Seq<u8>, st: Seq<int>)
 #[verifier::external_body] pub fn prop_as_usize(p: &PacketPropType) -> (r: usize) { unimplemented!() }
 #[verifier::external_body] pub fn last_stmt(v: &Vec<Statement>) -> (r: Option<&Statement>) ensures r is Some == (v@.len() > 0) { v.last() }
 // the symbol table (symtab unit): none of these operations changes how many tables enclose the current one
-#[verifier::external_body] pub fn symtab_define(t: &mut SymbolTable, name: &String, depth: usize) -> (r: Rc<Symbol>) ensures st_depth(final(t)) == st_depth(old(t)) { unimplemented!() }
+// C04: what the table answers is the symtab unit's business (innermost visible binding, free-variable capture); here the answers are
+// uninterpreted functions of the table, the name and the depth, so that the code generator's use of them can be stated
+pub uninterp spec fn defined_sym(t: &SymbolTable, name: Seq<char>, depth: usize) -> Symbol;      // the symbol define() creates
+pub uninterp spec fn resolved_sym(t: &SymbolTable, name: Seq<char>, depth: usize) -> Option<Symbol>;   // what resolve() answers
+#[verifier::external_body] pub fn symtab_define(t: &mut SymbolTable, name: &String, depth: usize) -> (r: Rc<Symbol>) ensures st_depth(final(t)) == st_depth(old(t)), *r == defined_sym(old(t), name@, depth) { unimplemented!() }
 #[verifier::external_body] pub fn symtab_define_function_name(t: &mut SymbolTable, name: &String) -> (r: Rc<Symbol>) ensures st_depth(final(t)) == st_depth(old(t)) { unimplemented!() }
-#[verifier::external_body] pub fn symtab_resolve(t: &mut SymbolTable, name: &String, depth: usize) -> (r: Option<Rc<Symbol>>) ensures st_depth(final(t)) == st_depth(old(t)) { unimplemented!() }
-#[verifier::external_body] pub fn symtab_leave_block(t: &mut SymbolTable, depth: usize) ensures st_depth(final(t)) == st_depth(old(t)) { unimplemented!() }
+#[verifier::external_body] pub fn symtab_resolve(t: &mut SymbolTable, name: &String, depth: usize) -> (r: Option<Rc<Symbol>>)
+    ensures st_depth(final(t)) == st_depth(old(t)), (r is Some) == (resolved_sym(old(t), name@, depth) is Some), r matches Some(s) ==> *s == resolved_sym(old(t), name@, depth)->0
+{ unimplemented!() }
+pub uninterp spec fn after_leave(t: &SymbolTable, depth: usize) -> SymbolTable;    // the table once the bindings deeper than `depth` are hidden
+#[verifier::external_body] pub fn symtab_leave_block(t: &mut SymbolTable, depth: usize) ensures st_depth(final(t)) == st_depth(old(t)), *final(t) == after_leave(old(t), depth) { unimplemented!() }
 #[verifier::external_body] pub fn symtab_get_num_definitions(t: &SymbolTable) -> (r: usize) { unimplemented!() }
 #[verifier::external_body] pub fn symtab_free_symbols_clone(t: &SymbolTable) -> (r: Vec<Rc<Symbol>>) { unimplemented!() }
 #[verifier::external_body] pub fn symtab_clone(t: &SymbolTable) -> (r: SymbolTable) ensures st_depth(&r) == st_depth(t) { unimplemented!() }
@@ -1138,4 +1145,18 @@ pub proof fn lemma_new(c: &Compiler)
 {
     lemma_empty_stream(code(c));
     assert(swf(&sc(c)));
+}
+
+// C04: the instruction that reads / writes a resolved symbol is the one of the symbol's own scope, with the symbol's own index
+pub open spec fn load_op(s: SymbolScope) -> Opcode {
+    match s { SymbolScope::Global => Opcode::GetGlobal, SymbolScope::Local => Opcode::GetLocal, SymbolScope::BuiltinFn => Opcode::GetBuiltinFn,
+              SymbolScope::BuiltinVar => Opcode::GetBuiltinVar, SymbolScope::Free => Opcode::GetFree, SymbolScope::Function => Opcode::CurrClosure }
+}
+pub open spec fn store_op(s: SymbolScope) -> Opcode {
+    match s { SymbolScope::Global => Opcode::SetGlobal, SymbolScope::Local => Opcode::SetLocal, SymbolScope::Free => Opcode::SetFree, _ => Opcode::Invalid }
+}
+pub open spec fn define_op(s: SymbolScope) -> Opcode { if s == SymbolScope::Global { Opcode::DefineGlobal } else { Opcode::DefineLocal } }
+pub open spec fn appended_ins(o: &Compiler, f: &Compiler, op: Opcode, operand: usize) -> bool { code(f) == code(o) + ins_bytes(op, seq![operand]) }
+pub open spec fn ends_with_ins(f: &Compiler, op: Opcode, operand: usize) -> bool {
+    code(f).len() >= ilen(op) && code(f).subrange(code(f).len() - ilen(op), code(f).len() as int) == ins_bytes(op, seq![operand]) && sc(f).last_ins.opcode == op
 }
